@@ -21,6 +21,7 @@ EXPLANATION = (
     "tolerances). C17.3: the record is shortened only at its end or by whole slots (start offsets multiples of sps), so the folded data "
     "stay aligned with the independently built slot time axis. C17.4: the populations handed to shortest_int are selected by value, not cut from the sorted record at a position that depends on the record length alone (a fixed rank assumes equal numbers of ones and zeros). C17.5: the folded record holds exactly the slots the time axis is built for: resampling keeps the slot rate (num*sps == len*sps_resamp, len being the symbolic sample count of the record) and without resampling the record has sps samples per slot of the axis. C17.6: the remainder cut from the record is taken modulo an even multiple of sps (the eye is folded into two-slot traces). Zero-padding FIR/polyphase routines count as mixing the data with a literal 0. Decided: these clauses; not decided: accuracy of levels, sigmas, crossings, sampling index (data-dependent numerics).")
 EXPLANATION += (' Added after the audit wave: C17.7 t_opt is searched midway between the two crossing times; C17.8 the boundary between the ON and OFF populations is computed from the level estimates and is not an element of the record; C17.9 the populations are drawn from every slot of the folded trace (no single sub-slot window on an axis that folds two slots).')
+EXPLANATION += (' Second audit wave: C17.10 the instants handed to the crossing clustering carry a reduction of the time axis modulo the slot.')
 TRUSTED = ["sklearn KMeans / scipy gaussian_kde / resample are equivariant under a common affine map of homogeneous data", "numpy semantics of mean/std/unique/roll"]
 
 F0, F1 = Fraction(0), Fraction(1)
@@ -710,6 +711,36 @@ def rule_every_slot(ctx, rule):
             ctx.holds(rule, fi, rets[0].node, label, "no single sub-slot window on a multi-slot trace" if k != 1 else "one slot per trace")
 
 
+def rule_periodic_crossings(ctx, rule):
+    """the crossing instants are found by clustering the mid-band samples over the trace into two groups, one per crossing of the
+    two-slot trace.  On the raw axis a group exists only if transitions fall on slot boundaries of that parity: data whose
+    transitions all share a parity (0011..., PPM words 1001 1001, alternating M-bit words) leave one group empty, the two
+    centres coincide, t_right - t_left = 0, the population window is empty and every level is nan.  The clustered instants must
+    therefore carry their one-slot image (a reduction of the axis modulo the slot)."""
+    pkg = ctx.pkg
+    fi = pkg.func("devices.GET_EYE")
+    for resamp in (True, False):
+        case = f"sps_resamp {'given' if resamp else 'omitted'}"
+        label = f"GET_EYE [{case}]: crossing instants clustered together with their one-slot image"
+        it = Interp(pkg, param_classes={"input": "electrical_signal"}, assumptions={"input.noise": "none", "sps_resamp": ("truth", resamp)}, no_inline=("shortest_int",))
+        rets = [o for o in it.run(fi) if o.kind == "return" and isinstance(o.value, ObjV)]
+        if len(rets) != 1 or not isinstance(rets[0].value.fields.get("t"), Form):
+            ctx.unknown(rule, fi, fi.node, label, f"{len(rets)} return paths / time axis not identified")
+            continue
+        t = rets[0].value.fields["t"]
+        k = _axis_slots(t)
+        ts = repr(t)
+        timed = [(node, fargs[0]) for node, fargs, _kw, depth in it.fit_log if depth == 0 and fargs and ts in repr(fargs[0])]
+        if not timed:
+            ctx.holds(rule, fi, rets[0].node, label, "no clustering over the time axis")
+            continue
+        for node, data in timed:
+            wrapped = any(a[0] == "fn" and a[1].split(".")[-1] in ("mod", "remainder", "fmod") and ts in repr(a[2][0]) for a in data.atoms()) if isinstance(data, Form) else False
+            ctx.check(rule, wrapped or (k is not None and k < 2), fi, node, label, "a reduction of the time axis modulo the slot among the clustered instants",
+                      f"the instants clustered by {src_of(node)[:50]} are samples of the raw {k}-slot axis only: transitions that all fall on slot boundaries of one parity (0011..., PPM slots 1001 1001) "
+                      "populate one of the two crossing groups, both centres land on the same crossing, t_right - t_left = 0, the level window is empty and mu0 = mu1 = nan")
+
+
 def rule_even_slots(ctx, rule):
     """the eye is folded into traces of TWO slots (the time axis is `nslots // 2` copies of a two-slot ramp), so the record must be
     cut to a whole number of two-slot periods: the remainder dropped at the end is taken modulo an even multiple of sps.  With a
@@ -901,3 +932,5 @@ def run(ctx):
     ctx.require_min("C17.8", 2)
     rule_every_slot(ctx, "C17.9")
     ctx.require_min("C17.9", 2)
+    rule_periodic_crossings(ctx, "C17.10")
+    ctx.require_min("C17.10", 2)
